@@ -215,6 +215,7 @@ fn add_sessions(a: &mut SessionsRunStats, s: &SessionsRunStats) {
     a.long_sessions += s.long_sessions;
     a.soak_runs += s.soak_runs;
     a.other_calls += s.other_calls;
+    a.space_variants += s.space_variants;
     a.calls_temp_format += s.calls_temp_format;
     a.coop_runs += s.coop_runs;
     a.coop_threads += s.coop_threads;
@@ -1261,6 +1262,7 @@ fn evidence_json(opts: &Opts, kind: SimKind, prop: &'static str, agg: &Agg, wall
             fc.push(("repeat_request_in_session".into(), J::u(s.repeats_in_batch)));
             fc.push(("same_input_other_format_back_to_back".into(), J::u(s.cross_format_pairs)));
             fc.push(("same_length_variant_of_previous_request".into(), J::u(s.same_len_variants)));
+            fc.push(("blank_more_or_less_variant_of_previous_request".into(), J::u(s.space_variants)));
             fc.push(("interleaved_operation_inside_session".into(), J::u(s.interleaved_steps)));
             fc.push(("nested_session".into(), J::u(s.nested_batches)));
             fc.push(("long_lived_session_30_to_150_inputs".into(), J::u(s.long_sessions)));
